@@ -409,6 +409,7 @@ static void child_run(const Plan& p) {
   logf("PLAN engine=%s batch=%s seed=%llu runseed=%llu locale=%s", p.engine.c_str(), p.batch.c_str(), (unsigned long long)p.seed,
        (unsigned long long)p.runseed, locale_name(p.locale));
   ExecHooks h;
+  h.errno_mode = p.errno_mode != 0;
   g_monitor_tables = false;
   if (p.engine == "mem") { run_single_task(p, h); }
   else if (p.engine == "crystal") { h.deep_crystal_checks = true; h.leak_scope = LEAKS_CRYSTAL_OPS; run_single_task(p, h); }
@@ -517,6 +518,7 @@ static Plan gen_plan(uint64_t runseed) {
   } else if (O.engine == "purity") {
     p.locale = pick_locale(rp, true);
     p.tasks[0].tloc = pick_tloc(runseed, 0, p.locale, true);
+    p.errno_mode = splitmix64(runseed ^ tag_of("errno")) % 3 == 0 ? 1 : 0;
     auto& ops = p.tasks[0].ops;
     if (O.batch == "long") {
       // thousands of calls of one to three functions in one process, with arguments that repeat: state that only
@@ -924,6 +926,7 @@ static Plan minimise(const Plan& orig, const std::string& key, int budget) {
   for (size_t t = 0; t < p.tasks.size() && g_shrink_runs < budget; t++)
     if (p.tasks[t].tloc) { Plan q = p; q.tasks[t].tloc = 0; if (still_fails(q, key)) p = q; }
   if (p.reuse && g_shrink_runs < budget) { Plan q = p; q.reuse = 0; if (still_fails(q, key)) p = q; }
+  if (p.errno_mode && g_shrink_runs < budget) { Plan q = p; q.errno_mode = 0; if (still_fails(q, key)) p = q; }
   return p;
 }
 
